@@ -283,6 +283,8 @@ def r2c_context_helpers_read_only(cx):
     for f in [x for x in c.body if isinstance(x, FUNC_TYPES) and x.name not in ("__init__", "set")]:
         if any(isinstance(d, ast.Name) and d.id == "contextmanager" for d in f.decorator_list):
             continue        # push/pop helpers are checked by the pairing rule (C19.R8)
+        if not any(isinstance(r_, ast.Return) and r_.value is not None and U(r_.value) != "None" for r_ in walk_body(f.body)):
+            continue        # a command (push / pop / reset helper), not a query: what it may store is the business of R2 / R8
         st = [x for x in ast.walk(f) if isinstance(x, (ast.Attribute, ast.Subscript)) and isinstance(x.ctx, (ast.Store, ast.Del)) and U(x).split(".")[0].split("[")[0] == "self"]
         st += [x for x in ast.walk(f) if isinstance(x, ast.Call) and isinstance(x.func, ast.Attribute) and x.func.attr in feat.MUTATORS and U(x.func.value).startswith("self.")]
         cx.require(not st, st[0] if st else f, "Context.%s answers from the input alone (keeps no cursor or cache on the context)" % f.name, construct=short(stmt_of(st[0]), 80) if st else "def Context.%s" % f.name)
